@@ -178,7 +178,26 @@ def preprocess_tag_block_spacing(text: str) -> str:
     if not has_tag_only_lines:
         return text
 
+    # Lines inside a fenced code block are code, whatever they look like.
+    open_fence: tuple[str, int] | None = None
+
     for i, line in enumerate(lines):
+        fence_match = re.match(r"^ {0,3}(`{3,}|~{3,})(.*)$", line)
+        if open_fence is not None:
+            if (
+                fence_match
+                and fence_match.group(1)[0] == open_fence[0]
+                and len(fence_match.group(1)) >= open_fence[1]
+                and not fence_match.group(2).strip()
+            ):
+                open_fence = None
+            result_lines.append(line)
+            continue
+        if fence_match and not (fence_match.group(1)[0] == "`" and "`" in fence_match.group(2)):
+            open_fence = (fence_match.group(1)[0], len(fence_match.group(1)))
+            result_lines.append(line)
+            continue
+
         # Check if we need to add a blank line BEFORE this line
         if i > 0:
             prev_line = lines[i - 1]
